@@ -45,6 +45,22 @@ CHECKS['C08'] = dict(
     note='floats are bit patterns (NaNs compared as a class); aliasing of Vector3 objects between entities cannot exist in the model and would surface as a disagreement.',
     design='§5 C08')
 
+CHECKS['C02'] = dict(
+    technique='Lean 4 theorems frames_encode / frames_truncated_{header,payload} / parse_bound / unmapped_noop / play_filter / ignored_noop + differential framing of generated streams + insertion of unmapped packets into generated histories and recordings',
+    text='C02 theorems: parsing a concatenation of encoded packets returns exactly those packets in order (any count, sizes < 2^32), a cut inside the last header ends with the short-header error after the complete packets, a cut inside the payload still delivers that packet; the loop consumes >= 12 bytes per packet; an unmapped type is a no-op for every table, payload and world, and play(ps) = play(ps without unmapped) for both modes. Tied to PlayerBase.play by generated streams played through greedy decoders (isolation), and by inserting unmapped packets at random and at every position of generated histories (4 dialects) and into real recordings.',
+    note='payload isolation is structural in the model (handlers receive the payload only) and behavioural in the tie (decoders that read everything they can); correspondence is sampled.',
+    design='§5 C02')
+CHECKS['C07'] = dict(
+    technique='Lean 4 theorems subscribe_appends/other/many, runSubs_all, unsubscribed_noop, dispatch_method, dispatch_property, undecodable_call_clean, step_log_append + differential invocation logs on generated histories with random subscription sets + recordings with every method subscribed',
+    text='C07 theorems: registration appends (all callbacks of a key are kept, other keys untouched); a matching event invokes every non-raising subscriber once, in registration order, with the entity, positional and keyword arguments split by name; with no subscriber a call is a no-op for every payload (never decoded); property subscribers get (entity, new value) after the value is stored; the log only grows (stream order). Tied to Entity.subscribe_*/call_client_method by recording callbacks on generated histories (log compared with the model and with the expectation derived from the generated events) and by the full method-call trace of real recordings against the model as independent decoder.',
+    note='nested-change delivery (substring key match) is model code exercised by the correspondence; callbacks are opaque (recorded, optionally raising).',
+    design='§5 C07')
+CHECKS['C12'] = dict(
+    technique='Lean 4 theorems modes_agree, lenient_no_raise/lenient_total, strict_prefix, lenient_eq_filtered, put_stored, unknown_entity_clean, method_index_clean, method_undecodable_clean, property_failure_clean + fault injection into generated histories in both modes',
+    text='C12 theorems over the play loop: strict stops at the first failing packet with exactly the state reached before it (plus that packet\'s partial effect) and its exception; lenient never raises out of the loop; when failing packets are clean the lenient world equals playing the stream without them, failure-free; fault-free streams give identical results; the named failure classes (unknown entity, index out of range, undecodable value of update/call) leave the world exactly as it was (real equality, using the table invariant). Tied to PlayerBase.play by injecting 0..5 faults into generated histories and checking the same three statements on the implementation alone, plus model/implementation agreement in both modes.',
+    note='the top-level get_info catch-all is covered with the container (C01/C15); correspondence is sampled.',
+    design='§5 C12')
+
 PENDING_REASON = 'check not built yet in this revision (planned: see DESIGN.md §5); not claimed until its theorem + correspondence run on the unchanged tree'
 
 
